@@ -34,6 +34,13 @@ def exec_CMP(t):
     try:
         X = mk(a, sx, nx, fx) if kind != 'nf' else (_val(a, fx)[0] if len(a) == 1 else np.array([float(v) for v in _val(a, fx)]))
         Y = mk(b, sy, ny, fy) if kind != 'fn' else (_val(b, fy)[0] if len(b) == 1 else np.array([float(v) for v in _val(b, fy)]))
+        # the plain number is a Python scalar or (content-determined) the NumPy scalar of the same value: np.float64 / np.int64 are
+        # the numbers NumPy code has in its hands
+        npnum = lambda v: (np.int64(v) if isinstance(v, int) else np.float64(v)) if not isinstance(v, np.ndarray) and (a[0] + b[0] + nx) % 2 else v
+        if kind == 'nf':
+            X = npnum(X)
+        if kind == 'fn':
+            Y = npnum(Y)
         out = []
         for op in OPS:
             r = op(X, Y)
